@@ -285,8 +285,8 @@ TrExit ==
                 THEN (OutKey :> [outh |-> Ev.outh, status |-> Ev.status, io |-> run.io]) @@ memoOut
                 ELSE memoOut
   /\ UNCHANGED <<svars, run, memo, memoCmd, popped, rejSeen, unsatAt, poppedUnsat, rejNamed>>
-  /\ Note( If(Ev.sig # 0, V("C18", [signal |-> Ev.sig])) \cup
-           If(Ev.san, V("C18", "sanitizer report")) \cup
+  /\ Note( If(Ev.sig # 0, V("C18", [signal |-> Ev.sig, site |-> Ev.site])) \cup
+           If(Ev.san, V("C18", [sanitizer |-> Ev.site])) \cup
            If(Ev.to /\ ~Ev.pending, V("C18", "script without pending check-sat did not terminate")) \cup
            If(~Ev.to /\ Ev.sig = 0 /\ errs > 0 /\ Ev.status = 0,
               V("C18", "a command was rejected but the exit status is 0")) \cup
